@@ -499,7 +499,8 @@ def lost_digits(o0, o1):
         pairs = [(a["lb"], b["lb"]), (a["ub"], b["ub"]), (a["objective"], b["objective"])]
         if len(a["stoich"]) != len(b["stoich"]):
             return False
-        pairs += [(x[1], y[1]) for x, y in zip(a["stoich"], b["stoich"])]
+        # (by value, not by key: with the identifier-codec finding the keys come back under other names)
+        pairs += list(zip(sorted((x[1] for x in a["stoich"]), key=_f), sorted((y[1] for y in b["stoich"]), key=_f)))
         for x, y in pairs:
             if float("%.15g" % _f(x)) != _f(y):
                 return False
